@@ -190,14 +190,14 @@ func c07build(elems []*gty, maxIdx int) []c07case {
 						ets = append(ets, ix.text)
 					}
 					if !anyExprOnly {
-						cs.Inst = fmt.Sprintf("(%s) {\n  %%r = getelementptr %s, %s %%p, %s\n  store %s %%r, %s* undef\n  ret void\n}", strings.Join(params, ", "), et.text, bt, strings.Join(its, ", "), want, want)
+						cs.Inst = fmt.Sprintf("(%s) {\n  %%r = getelementptr %s, %s %%p%s\n  store %s %%r, %s* undef\n  ret void\n}", strings.Join(params, ", "), et.text, bt, c07commaList(its), want, want)
 					}
 					if allConst {
 						basec := "null"
 						if baseVec != 0 {
 							basec = "zeroinitializer"
 						}
-						cs.Expr = fmt.Sprintf("%s getelementptr (%s, %s %s, %s)", want, et.text, bt, basec, strings.Join(ets, ", "))
+						cs.Expr = fmt.Sprintf("%s getelementptr (%s, %s %s%s)", want, et.text, bt, basec, c07commaList(ets))
 						cs.hasExpr = true
 					}
 					if cs.Inst != "" || cs.hasExpr {
@@ -205,9 +205,8 @@ func c07build(elems []*gty, maxIdx int) []c07case {
 					}
 				}
 				rec = func(cur *gty, idx []gidx, steps int) {
-					if len(idx) >= 1 {
-						emit(cur, idx)
-					}
+					// the empty index list is valid too: the result is the base pointer type itself
+					emit(cur, idx)
 					if len(idx) == maxIdx {
 						return
 					}
@@ -247,6 +246,15 @@ func c07build(elems []*gty, maxIdx int) []c07case {
 		}
 	}
 	return out
+}
+
+// c07commaList renders ", a, b" (nothing for an empty list).
+func c07commaList(xs []string) string {
+	var b strings.Builder
+	for _, x := range xs {
+		b.WriteString(", " + x)
+	}
+	return b.String()
 }
 
 func c07moduleText(cases []c07case, base int) string {
